@@ -104,6 +104,16 @@ def _num_params(d, o):
         if not isinstance(n, int):
             raise Inconclusive("arity payload is not a constant integer")
         return (variant, n)
+    if variant == "Variadic" and len(v["ops"]) == 2:
+        # Variadic(lo, hi) with two plain bounds: the same half-open interval as Variadic(lo..hi)
+        vals = []
+        for oo in v["ops"]:
+            k2, c = _resolve_operand(d, oo)
+            n = const_value(c) if k2 == "const" else None
+            if not isinstance(n, int):
+                raise Inconclusive("Variadic bound is not a constant integer")
+            vals.append(n)
+        return ("Variadic", vals[0], vals[1])
     if variant == "Variadic":
         kk, r = _resolve_operand(d, v["ops"][0])
         if kk != "rv" or r["k"] != "Aggregate" or "Range" not in r.get("adt", ""):
